@@ -1,5 +1,4 @@
-// PROBE (throw-away): appended to crates/aranya-runtime/src/client/transaction.rs in a scratch copy.
-// Backs the KT measurement in DESIGN.md section 1. Not part of the machinery.
+// PROBE (throw-away), appended to aranya-runtime/src/client/transaction.rs in a scratch copy. Not part of the machinery.
 #[cfg(kani)]
 mod verif_kani {
     use alloc::string::String;
@@ -13,10 +12,11 @@ mod verif_kani {
     // ---- ghost event log ----
     #[derive(Copy, Clone, PartialEq, Eq)]
     enum Ev { Begin, Commit, Rollback, Checkpoint, Revert, AddCommand, CallRule, Write, CommitHeads }
-    static mut LOG: [Option<Ev>; 8] = [None; 8];
+    static mut LOG: [u8; 8] = [255; 8];
     static mut LOGN: usize = 0;
-    fn log(e: Ev) { unsafe { if LOGN < 8 { LOG[LOGN] = Some(e); } LOGN += 1; } }
-    fn at(i: usize) -> Option<Ev> { unsafe { if i < 8 { LOG[i] } else { None } } }
+    fn code(e: Ev) -> u8 { match e { Ev::Begin => 0, Ev::Commit => 1, Ev::Rollback => 2, Ev::Checkpoint => 3, Ev::Revert => 4, Ev::AddCommand => 5, Ev::CallRule => 6, Ev::Write => 7, Ev::CommitHeads => 8 } }
+    fn log(e: Ev) { unsafe { if LOGN < 8 { LOG[LOGN] = code(e); } LOGN += 1; } }
+    fn at(i: usize) -> Option<Ev> { unsafe { if i < 8 { match LOG[i] { 0 => Some(Ev::Begin), 1 => Some(Ev::Commit), 2 => Some(Ev::Rollback), 3 => Some(Ev::Checkpoint), 4 => Some(Ev::Revert), 5 => Some(Ev::AddCommand), 6 => Some(Ev::CallRule), 7 => Some(Ev::Write), 8 => Some(Ev::CommitHeads), _ => None } } else { None } } }
     fn n() -> usize { unsafe { LOGN } }
 
     fn any_serr() -> StorageError { if kani::any() { StorageError::IoError } else { StorageError::NoSuchStorage } }
@@ -125,7 +125,7 @@ mod verif_kani {
         }
     }
 
-    struct MPolicy { rule_result_ok: bool }
+    struct MPolicy { rule_result_ok: bool, action_ok: bool }
     impl Policy for MPolicy {
         type Action<'a> = ();
         type Effect = ();
@@ -135,7 +135,7 @@ mod verif_kani {
             log(Ev::CallRule);
             if self.rule_result_ok { Ok(()) } else { Err(any_perr()) }
         }
-        fn call_action(&self, _a: (), _f: &mut impl Perspective, _s: &mut impl Sink<()>, _p: ActionPlacement) -> Result<(), PolicyError> { Err(any_perr()) }
+        fn call_action(&self, _a: (), _f: &mut impl Perspective, _s: &mut impl Sink<()>, _p: ActionPlacement) -> Result<(), PolicyError> { log(Ev::CallRule); if self.action_ok { Ok(()) } else { Err(any_perr()) } }
         fn merge<'a>(&self, _t: &'a mut [u8], _ids: MergeIds) -> Result<MCmd, PolicyError> { Err(any_perr()) }
     }
     struct MPS { policy: MPolicy, get_fails: bool }
@@ -147,10 +147,125 @@ mod verif_kani {
     }
     struct MSink;
     impl Sink<()> for MSink {
-        fn begin(&mut self) { log(Ev::Begin) }
+        fn begin(&mut self) { unsafe { assert!(LOGN == 0, "at sink.begin: log empty"); } log(Ev::Begin); unsafe { assert!(LOG[0] == 0, "after begin: LOG[0] is Begin"); } }
         fn consume(&mut self, _: ()) {}
         fn rollback(&mut self) { log(Ev::Rollback) }
-        fn commit(&mut self) { log(Ev::Commit) }
+        fn commit(&mut self) { unsafe { assert!(LOG[0] == 0, "at sink.commit: LOG[0] is Begin"); } log(Ev::Commit) }
+    }
+
+    fn stub_evaluate_braid<S, PS, F, MS>(
+        _storage: &mut S,
+        _heads: &[Location],
+        _sink: &mut impl Sink<PS::Effect>,
+        _policy: &PS::Policy,
+        _traversal: &mut TraversalBuffer,
+        _braid_buf: &mut BraidBuffer<S::Segment>,
+        _make_spill: &MS,
+    ) -> Result<(S::FactIndex, Location), ClientError>
+    where
+        S: Storage,
+        PS: PolicyStore,
+        F: Spill,
+        MS: Fn() -> Result<F, StorageError>,
+    {
+        log(Ev::CallRule); // reuse as "Braid" marker
+        Err(ClientError::ParallelFinalize)
+    }
+
+    struct NoSpill;
+    impl Spill for NoSpill {
+        fn write_at(&mut self, _: usize, _: &[u8]) -> Result<(), StorageError> { Ok(()) }
+        fn read_at(&mut self, _: usize, _: &mut [u8]) -> Result<(), StorageError> { Ok(()) }
+    }
+
+    /// C08/C05: commit — stale offset or braid error => no CommitHeads.
+    #[kani::proof]
+    #[kani::unwind(34)]
+    #[kani::stub(evaluate_braid, stub_evaluate_braid)]
+    fn commit_trace_two_heads() {
+        let mut trx: Transaction<MSP, MPS> = Transaction::new(GraphId::default());
+        let captured: u64 = kani::any();
+        let has_offset: bool = kani::any();
+        trx.original_heads_offset = if has_offset { Some(HeadSetOffset::new(captured)) } else { None };
+        trx.heads.insert(any_id(), Location::new(SegmentIndex::new(1), MaxCut::new(1)));
+        trx.heads.insert(any_id(), Location::new(SegmentIndex::new(2), MaxCut::new(1)));
+        let mut sp = MSP { storage: MStorage { heads: HeadSet::default() } };
+        let mut ps = MPS { policy: MPolicy { rule_result_ok: true, action_ok: false }, get_fails: false };
+        let mut sink = MSink;
+        let mut bufs: RuntimeBuffers<MSeg> = RuntimeBuffers::new();
+        let mk = || -> Result<NoSpill, StorageError> { Ok(NoSpill) };
+        let r = trx.commit::<NoSpill, _>(&mut sp, &mut ps, &mut sink, &mut bufs, &mk);
+        // multi-head => braid stub fails => never CommitHeads
+        let mut i = 0;
+        while i < 8 { assert!(at(i) != Some(Ev::CommitHeads)); i += 1; }
+        if !has_offset { assert!(matches!(r, Ok(false))); assert!(n() == 0); }
+        core::mem::forget(r);
+    }
+
+    /// C08: commit with one tip — offset check precedes everything.
+    #[kani::proof]
+    #[kani::unwind(34)]
+    #[kani::stub(evaluate_braid, stub_evaluate_braid)]
+    fn commit_trace_one_head() {
+        let mut trx: Transaction<MSP, MPS> = Transaction::new(GraphId::default());
+        let has_offset: bool = kani::any();
+        trx.original_heads_offset = if has_offset { Some(HeadSetOffset::new(7)) } else { None };
+        trx.heads.insert(any_id(), Location::new(SegmentIndex::new(1), MaxCut::new(1)));
+        let mut sp = MSP { storage: MStorage { heads: HeadSet::default() } };
+        let mut ps = MPS { policy: MPolicy { rule_result_ok: true, action_ok: false }, get_fails: false };
+        let mut sink = MSink;
+        let mut bufs: RuntimeBuffers<MSeg> = RuntimeBuffers::new();
+        let mk = || -> Result<NoSpill, StorageError> { Ok(NoSpill) };
+        let r = trx.commit::<NoSpill, _>(&mut sp, &mut ps, &mut sink, &mut bufs, &mk);
+        if !has_offset { assert!(matches!(r, Ok(false))); assert!(n() == 0); }
+        else if matches!(r, Err(ClientError::ConcurrentTransaction)) { assert!(n() == 0); }
+        else if matches!(r, Ok(true)) { assert!(n() == 1 && at(0) == Some(Ev::CommitHeads)); kani::cover!(true, "committed"); }
+        core::mem::forget(r);
+    }
+
+    fn stub_collapse_heads<S, PS, F, MS>(
+        _storage: &mut S,
+        _policy_store: &mut PS,
+        _heads: HeadSet,
+        _buffers: &mut RuntimeBuffers<S::Segment>,
+        _make_spill: &MS,
+    ) -> Result<Location, ClientError>
+    where
+        S: Storage,
+        PS: PolicyStore,
+        F: Spill,
+        MS: Fn() -> Result<F, StorageError>,
+    {
+        if kani::any() { Err(ClientError::ParallelFinalize) } else { Ok(Location::new(SegmentIndex::new(1), MaxCut::new(1))) }
+    }
+
+    /// C07: action atomicity trace contract.
+    #[kani::proof]
+    #[kani::unwind(34)]
+    #[kani::stub(collapse_heads, stub_collapse_heads)]
+    fn action_trace() {
+        let ok: bool = kani::any();
+        let sp = MSP { storage: MStorage { heads: HeadSet::default() } };
+        let ps = MPS { policy: MPolicy { rule_result_ok: true, action_ok: ok }, get_fails: kani::any() };
+        let mut client = crate::ClientState::new(ps, sp);
+        let mut sink = MSink;
+        let mut bufs: RuntimeBuffers<MSeg> = RuntimeBuffers::new();
+        let mk = || -> Result<NoSpill, StorageError> { Ok(NoSpill) };
+        let r = client.action::<NoSpill, _>(GraphId::default(), &mut sink, (), &mut bufs, mk);
+        let mut commits = 0; let mut chead = 0; let mut rollbacks = 0; let mut i = 0;
+        let mut pos_commit_heads = 99; let mut pos_sink_commit = 99;
+        while i < 8 {
+            if at(i) == Some(Ev::Commit) { commits += 1; pos_sink_commit = i; }
+            if at(i) == Some(Ev::CommitHeads) { chead += 1; pos_commit_heads = i; }
+            if at(i) == Some(Ev::Rollback) { rollbacks += 1; }
+            i += 1;
+        }
+        if r.is_ok() { assert!(at(0) == Some(Ev::Begin), "ok: first is begin"); assert!(at(1) == Some(Ev::CallRule), "ok: second is call"); assert!(at(2) == Some(Ev::Write), "ok: third write"); assert!(at(3) == Some(Ev::CommitHeads), "ok: 4th commitheads"); assert!(at(4) == Some(Ev::Commit), "ok: 5th commit"); }
+        kani::cover!(r.is_ok() && commits == 0, "ok0"); kani::cover!(r.is_ok() && commits == 2, "ok2"); kani::cover!(r.is_err() && commits == 1, "err1"); kani::cover!(r.is_err() && commits == 1 && chead == 0 && n() == 4, "err1-n4"); kani::cover!(r.is_err() && commits == 1 && at(0) == Some(Ev::Commit), "err1-first"); kani::cover!(r.is_err() && commits == 1 && at(0) == Some(Ev::Commit) && n() == 1, "only-commit"); kani::cover!(r.is_err() && at(0) == Some(Ev::Commit) && at(1) == Some(Ev::Begin), "commit-then-begin"); kani::cover!(at(0) == Some(Ev::Begin), "begin-first"); kani::cover!(r.is_ok() && n() == 5, "ok-n5"); kani::cover!(r.is_ok() && n() == 6, "ok-n6"); kani::cover!(r.is_ok() && at(0) == Some(Ev::Commit), "ok-c0"); kani::cover!(r.is_ok() && at(1) == Some(Ev::Commit), "ok-c1"); kani::cover!(r.is_ok() && at(2) == Some(Ev::Commit), "ok-c2"); kani::cover!(r.is_ok() && at(3) == Some(Ev::Commit), "ok-c3"); kani::cover!(r.is_ok() && at(4) == Some(Ev::Commit), "ok-c4"); kani::cover!(r.is_ok() && at(5) == Some(Ev::Commit), "ok-c5");
+        if r.is_err() { assert!(chead == 0, "err: no commit_heads"); assert!(commits == 0, "err: no sink commit"); }
+        else { assert!(chead == 1, "ok: one commit_heads"); assert!(commits == 1, "ok: one sink commit"); assert!(rollbacks == 0, "ok: no rollback"); assert!(pos_commit_heads < pos_sink_commit, "ok: heads before sink commit"); kani::cover!(true, "action ok"); }
+        core::mem::forget(r);
+        core::mem::forget(client);
     }
 
     /// C06: add_single trace contract, perspective already positioned at parent.
@@ -165,7 +280,7 @@ mod verif_kani {
         let old_phead = trx.phead;
         let mut storage = MStorage { heads: HeadSet::default() };
         let rule_ok: bool = kani::any();
-        let mut ps = MPS { policy: MPolicy { rule_result_ok: rule_ok }, get_fails: kani::any() };
+        let mut ps = MPS { policy: MPolicy { rule_result_ok: rule_ok, action_ok: false }, get_fails: kani::any() };
         let mut sink = MSink;
         let mut buf = TraversalBuffer::new();
         let r = trx.add_single(&mut storage, &mut ps, &mut sink, &cmd, parent, &mut buf);
